@@ -18,7 +18,26 @@ def main():
     logging.disable(logging.CRITICAL)
     out = {}
     work = tempfile.mkdtemp(prefix="verif_c18w_")
-    for op in spec["ops"]:
+    rounds = int(spec.get("rounds", 1))
+    first = {}
+    drift = []
+    for rnd in range(rounds):
+        # a long-lived interpreter (a build server, a test bench): the whole list again and again; the n-th answer is the first answer
+        for op in spec["ops"]:
+            run_op(op, out, work)
+            oid = op["id"]
+            if rnd == 0:
+                first[oid] = out[oid]
+            elif out[oid] != first[oid] and len(drift) < 5:
+                drift.append({"operation": oid, "round": rnd, "now": json.dumps(out[oid])[:300], "first": json.dumps(first[oid])[:300]})
+    out = first
+    if drift:
+        out["__drift__"] = drift
+    print("C18RESULT " + json.dumps(out))
+
+
+def run_op(op, out, work):
+    if True:
         oid = op["id"]
         try:
             if op.get("pre_write"):
@@ -94,7 +113,6 @@ def main():
                 out[oid] = {f: open(os.path.join(od, f)).read() for f in sorted(os.listdir(od))}
         except BaseException as e:  # noqa
             out[oid] = {"err": type(e).__name__}
-    print("C18RESULT " + json.dumps(out))
 
 
 if __name__ == "__main__":
